@@ -139,6 +139,7 @@ def fast_sir(ctx, drv):
     reqs, metas = [], []
     for _ in range(ctx.scale(500, 3000)):
         c = allsims.gen_case(ctx.rng, "fast_SIR")
+        c["prewarm"] = False            # this stream logs every callback / RNG call of the run: no warm-up call
         if c["init"]["kind"] not in ("list", "single"):
             c["init"] = dict(kind="list", nodes=[0])
         G, lab = sims.build_graph(c)
